@@ -123,6 +123,16 @@ def judge(u, r):
     counts = dict(total=len(checks), covers=len(covers),
                   success=sum(1 for c in checks if stat(c) == "SUCCESS"),
                   satisfied=sum(1 for c in covers if stat(c) == "SATISFIED"), failed=len(failed))
+    if getattr(u, "should_panic", False) and not unsup_fail and not unwind_fail:
+        # #[kani::should_panic]: Kani reports Success iff at least one panic is reachable and nothing else is wrong
+        bad_cov = [c for c in covers if stat(c) != "SATISFIED"]
+        if bad_cov or not covers:
+            return dict(verdict="vacuous", reason="cover not satisfied in should_panic unit", failed=[], counts=counts)
+        if st.lower() in ("success", "successful") and real_fail:
+            counts["success"] += len(real_fail)
+            return dict(verdict="discharged", reason="", failed=[], counts=counts)
+        return dict(verdict="violated", reason="documented panic did not occur (no reachable panic in a should_panic unit)",
+                    failed=[dict(function=u.name, description="expected panic (documented rejection) is not reachable", category="assertion", status="Failure")], counts=counts)
     if unsup_fail:
         return dict(verdict="undecided", reason="unsupported construct reached: " + unsup_fail[0].get("description", "")[:200], failed=[], counts=counts)
     if unwind_fail:
